@@ -87,6 +87,10 @@ def run_history(case):
             if kind == 'contacts':
                 contact_gen += 1
                 cfg_state['contacts'] = ['a%d@example.org' % contact_gen] + (['extra%d@example.org' % contact_gen] if contact_gen % 2 else [])
+            elif kind == 'contacts-case':
+                # the same addresses written with other letter case: a different configured value all the same
+                contact_gen += 1
+                cfg_state['contacts'] = [c.swapcase() if k % 2 == 0 else c.upper() for k, c in enumerate(cfg_state['contacts'])] or ['Hostmaster%d@Example.ORG' % contact_gen]
             elif kind == 'contacts0':
                 # every contact address removed
                 contact_gen += 1
@@ -311,10 +315,17 @@ def persistence(chk, tier, r):
             for _ in range(k - 1):
                 nxt = r.choice([t for t in C.KEY_TYPES if t != kts[-1] and t != 'rsa4096'])
                 kts.append(nxt)
+            if i in (3, 4) or (tier != 'quick' and i % 97 == 5):
+                # the largest shapes the property allows: an RSA-4096 key with three superseded RSA keys
+                kts = [['rsa4096', 'rsa2048', 'rsa4096', 'rsa2048'], ['rsa2048', 'rsa4096', 'rsa2048', 'rsa4096']][i % 2]
             sub = '%s/p%d' % (d, i)
             os.makedirs(sub)
             eps = [{'name': 'endpoint %d é' % j, 'url': 'https://ca%d.example/acct/%d' % (j, r.randint(1, 10 ** 9)), 'orders': 'https://ca%d.example/orders/%d' % (j, i) if r.random() < 0.7 else ''}
                    for j in range(r.randint(0, 3))]
+            if kts[0].startswith('rsa') and len(kts) == 4 and 'rsa4096' in kts[1:]:
+                # ... on three endpoints with long (but ordinary) URLs
+                eps = [{'name': 'endpoint-with-a-rather-long-name-%d' % j, 'url': 'https://acme-v02.api.ca%d.example/acme/acct/%s' % (j, '9' * 60),
+                        'orders': 'https://acme-v02.api.ca%d.example/acme/acct/%s/orders' % (j, '9' * 60)} for j in range(3)]
             reqs.append({'id': i, 'dir': sub, 'account_name': names[i % len(names)] + str(i), 'contacts': ['c%d@example.org' % j for j in range(r.randint(0, 3))],
                          'key_types': [t.replace('_', '-') for t in kts], 'endpoints': eps,
                          'eab': {'identifier': 'kid-é-%d' % i, 'key_hex': os.urandom(r.randint(1, 64)).hex(), 'alg': r.choice(['HS256', 'HS384', 'HS512'])} if i % 2 else None})
@@ -450,6 +461,9 @@ MANDATORY = [
     [('key',), ('renew', 'A'), ('restart',)],                                   # with key_start=3: rsa2048 -> rsa4096 (same signature algorithm)
     [('key',), ('restart',), ('key',)],
     [('both',), ('restart',), ('forget', 'A')],
+    [('contacts-case',)],
+    [('contacts-case',), ('renew', 'A'), ('contacts-case',), ('restart',)],
+    [('contacts',), ('contacts-case',)],
     [('contacts0',)],
     [('contacts0',), ('renew', 'A'), ('contacts',)],
     [('contacts',), ('contacts0',), ('restart',)],
@@ -487,7 +501,7 @@ def gen(tier, r):
 
 
 def sig_of(cls, case, what):
-    edits = sorted({s[0] for s in case['steps'] if s[0] in ('contacts', 'contacts0', 'key', 'both', 'eab+', 'eab-', 'forget')})
+    edits = sorted({s[0] for s in case['steps'] if s[0] in ('contacts', 'contacts0', 'contacts-case', 'key', 'both', 'eab+', 'eab-', 'forget')})
     if cls == 'not-synchronised':
         # keyed on the combination of pending changes at the failing renewal
         both = 'both' in edits or ('contacts' in edits and 'key' in edits)
